@@ -210,7 +210,7 @@ def _list_inst(tier):
     return base
 
 
-def make_inverse(mode, divs, pitches, ts0=(4, 4), ts1=None, omax=4, dmax=4, give_divs=True):
+def make_inverse(mode, divs, pitches, ts0=(4, 4), ts1=None, omax=4, dmax=4, give_divs=True, grace=None):
     """note_array_to_score followed by note_array returns the same onsets, durations and pitches.  The inverse
     direction is a chain of structured-array kernels (lexsort, recfunctions, spelling / voice estimation): the note
     times are symbolic on a small integer grid and realised (the solver enumerates the grid)."""
@@ -228,6 +228,8 @@ def make_inverse(mode, divs, pitches, ts0=(4, 4), ts1=None, omax=4, dmax=4, give
             if i < n:
                 require(0 <= O[i] <= omax)
                 require(0 <= D[i] <= dmax)
+                if grace is not None:  # row `grace` is a grace note, the others have a duration
+                    require(D[i] == 0 if i == grace else D[i] >= 1)
             else:
                 require(O[i] == 0)
                 require(D[i] == 0)
@@ -267,6 +269,17 @@ def make_inverse(mode, divs, pitches, ts0=(4, 4), ts1=None, omax=4, dmax=4, give
                 b = sorted(tuple(round(float(x), 5) for x in r) for r in out[fields].tolist())
                 check(a == b, "note array of the rebuilt score differs (beats, signatures)", a, b)
             return [list(x) for x in b]
+        if mode == "div_ts":
+            # division columns, divisions and a time signature given as arguments (measures are added, the part is
+            # sanitised); recorded finding: a zero-duration row without a note of positive duration at its onset is removed
+            exclude_known("KF-C05-inverse-orphan-grace",
+                          any(d == 0 and not any(o2 == o and d2 > 0 for (o2, d2, _) in rows) for (o, d, _) in rows))
+            na = np.array(rows, dtype=[("onset_div", "i4"), ("duration_div", "i4"), ("pitch", "i4")])
+            sc = must_not_raise(note_array_to_score, na, divs=divs, time_sigs=[(0, ts0[0], ts0[1])], _what="note_array_to_score")
+            out = sc.note_array()
+            got = sorted((int(r["onset_div"]), int(r["duration_div"]), int(r["pitch"])) for r in out)
+            check(got == exp, "onsets, durations or pitches change through note_array_to_score (time signature given)", got, exp)
+            return [list(g) for g in got]
         if mode == "div":
             na = np.array(rows, dtype=[("onset_div", "i4"), ("duration_div", "i4"), ("pitch", "i4")])
             sc = must_not_raise(note_array_to_score, na, divs=divs, _what="note_array_to_score")
@@ -293,12 +306,14 @@ def make_inverse(mode, divs, pitches, ts0=(4, 4), ts1=None, omax=4, dmax=4, give
 def _inv_inst(tier):
     out = [{"mode": "div", "divs": 2, "pitches": [60, 67]}, {"mode": "beat", "divs": 4, "pitches": [60, 67]},
            {"mode": "both", "divs": 3, "pitches": [72, 72]}, {"mode": "ts", "divs": 2, "pitches": [60, 64], "ts0": [3, 4], "ts1": [3, 8]},
-           {"mode": "ts", "divs": 2, "pitches": [60, 64], "ts0": [3, 4], "ts1": [3, 8], "give_divs": False, "omax": 5}]
+           {"mode": "ts", "divs": 2, "pitches": [60, 64], "ts0": [3, 4], "ts1": [3, 8], "give_divs": False, "omax": 5},
+           {"mode": "div_ts", "divs": 2, "pitches": [60, 62, 64], "omax": 2, "dmax": 2, "grace": 1}]
     if tier != "quick":
         out += [{"mode": "div", "divs": 1, "pitches": [60]}, {"mode": "beat", "divs": 3, "pitches": [64, 64, 60], "omax": 2, "dmax": 3},
                 {"mode": "both", "divs": 4, "pitches": [60, 64, 67], "omax": 2, "dmax": 3}, {"mode": "div", "divs": 4, "pitches": [60, 60, 72], "omax": 3, "dmax": 2},
                 {"mode": "ts", "divs": 4, "pitches": [60, 64], "ts0": [2, 2], "ts1": [2, 4]}, {"mode": "ts", "divs": 2, "pitches": [60, 64, 67], "ts0": [6, 8], "ts1": [9, 8], "omax": 2, "dmax": 3},
-                {"mode": "ts", "divs": 2, "pitches": [60, 64], "ts0": [4, 4], "ts1": None}]
+                {"mode": "ts", "divs": 2, "pitches": [60, 64], "ts0": [4, 4], "ts1": None},
+                {"mode": "div_ts", "divs": 2, "pitches": [60, 62, 64], "omax": 4, "dmax": 3}, {"mode": "div_ts", "divs": 4, "pitches": [67, 60], "ts0": [3, 8], "omax": 6, "dmax": 4}]
     return out
 
 
@@ -321,7 +336,7 @@ HARNESSES = [
       functions=["note_array_to_score.note_array_to_score", "create_divs_from_beats", "create_beats_from_divs", "create_part",
                  "estimate_voices", "estimate_spelling", "score.add_measures", "score.tie_notes", "music.note_array_from_part"],
       bounds="1-3 notes with concrete pitches, symbolic onset / duration on an integer grid (0..4 divisions, realised: the "
-             "solver enumerates the grid), array kinds div (with divs argument) / beat / both / both + time-signature "
+             "solver enumerates the grid), array kinds div (with divs argument) / div with divs and time_sigs arguments (a grace row beside notes: measures added, part sanitised) / beat / both / both + time-signature "
              "columns with a signature change at the second barline (beat / signature columns compared when a note starts on "
              "that barline: the array does not say where a signature changes); listed divisions",
       outside="negative onsets (anacrusis), key-signature columns, given voices / spelling, more than 3 notes"),
